@@ -97,7 +97,7 @@ def main():
     add("unique", iv); add("sort", iv); add("argsort", iv); add("isin", iv, [1, 2, 3]); add("setdiff1d", iv, [1, 9]); add("union1d", iv, [100]); add("intersect1d", iv, [1, 9, 77])
     add("add.reduce", A, 0); add("add.reduce", A, axis=1); add("power", P, 2); add("sqrt", P * P); add("isnan", A); add("isfinite", A)
     add("broadcast_to", v, (2, 3)); add("reshape", A, (9,)); add("column_stack", (v, w)); add("stack", (v, w)); add("stack", (v, w), axis=1)
-    add("count_nonzero", M); add("fill_diagonal_copy", A, 7.0); add("triu", A); add("tril", A); add("flip", v); add("roll", v, 1); add("diff", v); add("prod", w); add("prod", P, axis=0)
+    add("count_nonzero", M); add("fill_diagonal_copy", A, 7.0); add("fill_diagonal_copy", A, v[:3]) if len(v) >= 3 else None; add("triu", A); add("tril", A); add("flip", v); add("roll", v, 1); add("diff", v); add("prod", w); add("prod", P, axis=0)
     # tensor methods and operators
     for f in ("m:sum", "m:mean", "m:min", "m:max", "m:copy", "m:T", "m:tolist", "m:ravel", "m:flatten", "m:all", "m:any", "m:astype_int", "m:astype_float", "m:astype_bool"):
         add(f, A)
